@@ -26,7 +26,7 @@ pub const CONFIGS: [(&str, &str); 7] = [
     ("f-nodefault", "no-default-features"),
 ];
 
-fn root() -> PathBuf {
+pub fn root() -> PathBuf {
     std::env::var("VERIF_ROOT").map(PathBuf::from).unwrap_or_else(|_| PathBuf::from("/verif"))
 }
 
@@ -63,7 +63,7 @@ pub fn make_corpus(ctx: &Ctx, n: usize) -> Vec<Line> {
     (0..n).map(|_| strat.new_tree(&mut runner).expect("strategy").current()).collect()
 }
 
-fn run_probe(cfg: &str, profile: &str, corpus: &std::path::Path) -> Result<Vec<String>, String> {
+pub fn run_probe(cfg: &str, profile: &str, corpus: &std::path::Path) -> Result<Vec<String>, String> {
     let exe = probe_path(cfg, profile);
     if !exe.exists() {
         return Err(format!("HARNESS: missing probe binary {} (run ./check --setup)", exe.display()));
@@ -96,7 +96,7 @@ fn parse_tokens(line: &str) -> BTreeMap<String, Vec<String>> {
 }
 
 /// the strict-parser relation for one Parse line
-fn judge_strict(text: &[u8], strict_line: &str, default_line: &str) -> Result<(), String> {
+pub fn judge_strict(text: &[u8], strict_line: &str, default_line: &str) -> Result<(), String> {
     let st = parse_tokens(strict_line);
     let df = parse_tokens(default_line);
     let types: [(&str, usize, u8); 6] = [("R", 32, 0), ("LR", 64, 0), ("N", 32, 1), ("LN", 64, 1), ("D", 32, 2), ("LD", 64, 2)];
